@@ -103,7 +103,7 @@ func (r *DOH) resolve(ctx context.Context, q query.Query, buf []byte, rt http.Ro
 	if ci.Model != "" {
 		req.Header.Set("X-Device-Model", ci.Model)
 	}
-	if ci.Name != "" {
+	if ci.Name != "" && validHeaderValue(ci.Name) {
 		req.Header.Set("X-Device-Name", ci.Name)
 	}
 	if rt == nil {
@@ -135,6 +135,18 @@ func (r *DOH) resolve(ctx context.Context, q query.Query, buf []byte, rt http.Ro
 		updateTTL(buf[:n], 0, 0, r.MaxTTL)
 	}
 	return n, i, err
+}
+
+// validHeaderValue reports whether v can be sent as an HTTP header value. A
+// discovered device name is arbitrary bytes; the transport rejects the whole
+// request when a header value holds control characters.
+func validHeaderValue(v string) bool {
+	for i := 0; i < len(v); i++ {
+		if b := v[i]; (b < ' ' && b != '\t') || b == 0x7f {
+			return false
+		}
+	}
+	return true
 }
 
 // lastMod returns the last modification time of the configuration pointed by
